@@ -13,7 +13,7 @@ import (
 
 // edit is one adversarial operation on the captured ciphertext stream.
 type edit struct {
-	Op   string `json:"op"` // flip | truncate | drop | dup | swap | replay | reflect_own | reflect_other | inject | swap_header
+	Op   string `json:"op"`             // flip | truncate | drop | dup | swap | replay | reflect_own | reflect_other | inject | swap_header
 	Rec  int    `json:"rec,omitempty"`  // record index (taken modulo the number of records)
 	Rec2 int    `json:"rec2,omitempty"` // second record / insertion position
 	Off  int    `json:"off,omitempty"`  // byte offset within the record (modulo its length)
@@ -23,18 +23,18 @@ type edit struct {
 
 type c02Case struct {
 	Cfg   hsConfig `json:"cfg"`
-	Via   string   `json:"via"`  // machine | grpc | tcp
-	Dir   int      `json:"dir"`  // 0: initiator/client writes
-	Lens  []int    `json:"lens"` // records written in the attacked direction
+	Via   string   `json:"via"`   // machine | grpc | tcp
+	Dir   int      `json:"dir"`   // 0: initiator/client writes
+	Lens  []int    `json:"lens"`  // records written in the attacked direction
 	Other []int    `json:"other"` // records written in the opposite direction (material for reflection)
 	Edits []edit   `json:"edits"`
 }
 
 type c02Outcome struct {
-	violation string
+	violation      string
 	consumedEdited bool // the reader consumed at least one byte the script changed
-	returned  int
-	intact    int
+	returned       int
+	intact         int
 }
 
 // applyEdits applies the script to the list of wire records and returns the
@@ -477,9 +477,9 @@ type rotCase struct {
 	Dir   int      `json:"dir"`
 	Count int      `json:"count"` // records written (crosses one or more rotations)
 	Len   int      `json:"len"`
-	Same  bool     `json:"same"`  // all records carry the same plaintext
-	At    int      `json:"at"`    // position at which the stream is tampered with
-	Src   int      `json:"src"`   // record delivered there instead of record At
+	Same  bool     `json:"same"` // all records carry the same plaintext
+	At    int      `json:"at"`   // position at which the stream is tampered with
+	Src   int      `json:"src"`  // record delivered there instead of record At
 }
 
 // runC02Rot writes Count records, delivers 0..At-1 untouched, then record Src
